@@ -20,8 +20,13 @@ fn main() {
         out_path: get("--out", "/dev/null"),
         scale_pct: get("--scale", "100").parse().expect("scale"),
         replay: args.iter().position(|a| a == "--replay").and_then(|i| args.get(i + 1)).cloned(),
+        tiny: args.iter().any(|a| a == "--tiny"),
     };
     mon::drive::install_panic_hook();
+    if args.iter().any(|a| a == "--exec") {
+        exec_mode(&ctx, &args);
+        return;
+    }
     let t0 = std::time::Instant::now();
     let res = match prop.as_str() {
         "C01" => props::c01::run(&ctx),
@@ -57,4 +62,70 @@ fn main() {
         res.inconclusive,
         t0.elapsed().as_secs_f64()
     );
+}
+
+fn unhex(h: &str) -> Vec<u8> {
+    (0..h.len() / 2).map(|i| u8::from_str_radix(&h[2 * i..2 * i + 2], 16).expect("hex")).collect()
+}
+
+/// Replay: execute one recorded case against the real library and print the event log.
+///   --exec --iface NAME --api run|process|parse --hex H1[,H2..] [--writer rec|rec:CAP|heapless:CAP|std]
+///          [--n N] [--chunks a,b,c] [--pend SEED] [--fault K] [--start A:B]
+fn exec_mode(ctx: &Ctx, args: &[String]) {
+    let get = |k: &str, d: &str| -> String {
+        args.iter().position(|a| a == k).and_then(|i| args.get(i + 1)).cloned().unwrap_or(d.to_string())
+    };
+    let iface = ctx.iface(&get("--iface", "mini"));
+    let inputs: Vec<Vec<u8>> = get("--hex", "").split(',').map(unhex).collect();
+    let refs: Vec<&[u8]> = inputs.iter().map(|v| &v[..]).collect();
+    let pend: u64 = get("--pend", "0").parse().unwrap_or(0);
+    println!("interface {} declarations:", iface.name);
+    for (i, d) in iface.decls.iter().enumerate() {
+        println!("  h{} {:?} {:?} -> {:?}{}", i, d.cmd, d.params, d.ret, if d.fails.is_some() { " (fails)" } else { "" });
+    }
+    match get("--api", "run").as_str() {
+        "parse" => {
+            let root = (iface.root)();
+            let mut start = root;
+            for m in get("--start", "").split(':').filter(|m| !m.is_empty() && *m != "root") {
+                start = start.child(m).expect("start node");
+            }
+            for i in &refs {
+                println!("parse(\"{}\") = {:?}", mon::ev::esc(i), mon::microscpi::parser::parse(root, start, i).map(|(rem, call)| (mon::ev::esc(rem), call.map(|c| (c.query, c.terminated, format!("{:?}", c.args))))));
+            }
+        }
+        "process" => {
+            let chunks: Vec<usize> = get("--chunks", "").split(',').filter(|c| !c.is_empty()).map(|c| if c == "-1" { usize::MAX } else { c.parse().unwrap() }).collect();
+            let fault = args.iter().position(|a| a == "--fault").and_then(|i| args.get(i + 1)).and_then(|v| v.parse().ok());
+            let n: usize = get("--n", "64").parse().unwrap();
+            let stream: Vec<u8> = refs.concat();
+            println!("process::<{}> stream \"{}\" chunks {:?} pend {} fault {:?}", n, mon::ev::esc(&stream), chunks, pend, fault);
+            let out = (iface.process)(&mon::ProcSpec { stream: &stream, n, chunks: &chunks, pend_seed: pend, fault_at: fault });
+            for e in &out.log {
+                println!("  {}", e.show());
+            }
+            println!("panic: {:?}  stuck: {}  allocations in library calls: {}", out.panic, out.stuck, out.allocs);
+        }
+        _ => {
+            let w = get("--writer", "rec");
+            let wk = if w == "std" {
+                mon::WriterKind::Std
+            }
+            else if let Some(c) = w.strip_prefix("heapless:") {
+                mon::WriterKind::Heapless(c.parse().unwrap())
+            }
+            else if let Some(c) = w.strip_prefix("rec:") {
+                mon::WriterKind::Rec(Some(c.parse().unwrap()))
+            }
+            else {
+                mon::WriterKind::Rec(None)
+            };
+            println!("run x{} writer {:?} pend {}", refs.len(), wk, pend);
+            let out = (iface.run)(&mon::RunSpec { inputs: &refs, writer: wk, pend_seed: pend });
+            for e in &out.log {
+                println!("  {}", e.show());
+            }
+            println!("panic: {:?}  stuck: {}  allocations in library calls: {}", out.panic, out.stuck, out.allocs);
+        }
+    }
 }
